@@ -105,6 +105,39 @@ def scenario(ctx, rng, tmpdir):
         boots = []
         first_platform = None
         for i in range(nboot):
+            plain = [b for b in boots if 'media_name' not in b['kw'] and not b['kw'].get('boot_info_table')]
+            if i > 0 and plain and rng.random() < 0.25:
+                # a further entry for a boot file that already has one (BIOS + UEFI entry of one image), under the same
+                # name or under a hard link to it: the load address must still be that file's sector
+                src = rng.choice(plain)
+                name, akw2 = src['name'], dict(src['names'])
+                if rng.random() < 0.5:
+                    name = '/LNKBOOT%d.;1' % i
+                    try:
+                        lkw = {'iso_old_path': src['name'], 'iso_new_path': name}
+                        if cfg.get('rr'):
+                            lkw['rr_name'] = 'lnkboot%d' % i
+                        iso.add_hard_link(**lkw)
+                        akw2 = {'iso_path': name}
+                    except Exception as e:  # noqa
+                        ctx.notes.append('link to boot file refused: %r' % e)
+                        continue
+                ekw = {'boot_load_size': rng.choice([1, 4, 9])}
+                exp = {'count': ekw['boot_load_size'], 'media': 0, 'sys': 0, 'boot': 0x88, 'seg': 0}
+                if rng.random() < 0.5:
+                    ekw['efi'] = True
+                    exp['platform'] = 0xef
+                else:
+                    exp['platform'] = ekw['platform_id'] = rng.choice([0, 1, 2, 0xef])
+                try:
+                    iso.add_eltorito(name, **ekw)
+                except Exception as e:  # noqa
+                    cls = isoapi.exc_class(e)
+                    if cls != 'invalidInput':
+                        viol('C11.add-eltorito-raises/%s' % cls, 'add_eltorito(%s, %s) for a file that already has an entry raised %s' % (name, ekw, cls))
+                    continue
+                boots.append({'name': name, 'data': src['data'], 'kw': ekw, 'exp': exp, 'names': akw2, 'shared': True})
+                continue
             data, kw, exp = make_boot(rng, i)
             name = '/%sBOOT%d.;1' % (rng.choice(['', 'A', 'Z', '0']), i)
             akw = {'iso_path': name}
@@ -178,14 +211,16 @@ def scenario(ctx, rng, tmpdir):
             except Exception as e:  # noqa
                 viol('C11.hide-boot-raises', 'set_hidden on the boot file raised %r' % e)
         unlinked = set()
+        gone_paths = set()
         r = rng.random()
         # one boot file, or every boot file (several inodes released by rm_eltorito), loses all its names
         for b in ([rng.choice(boots)] if r < 0.25 else boots if r < 0.4 else []):
             try:
                 for key, val in b['names'].items():
                     k2 = {'iso_path': 'iso_path', 'joliet_path': 'joliet_path', 'udf_path': 'udf_path'}.get(key)
-                    if k2:
+                    if k2 and (k2, val) not in gone_paths:
                         iso.rm_hard_link(**{k2: val})
+                        gone_paths.add((k2, val))
                 unlinked.add(b['name'])
             except Exception as e:  # noqa
                 viol('C11.unlink-boot-raises/%s' % isoapi.exc_class(e), 'rm_hard_link of the boot file names raised %r' % e)
